@@ -260,4 +260,25 @@ theorem compress_keeps (rows : List Row) (r : Row) (hr : r ∈ rows) (hd : r.slo
 example : encode { imod := 1, icov := 2, icons := 4, ivar := 1, jvar := 0 } = 6510050 ∧
     decode 6510050 = { imod := 1, icov := 2, icons := 4, ivar := 1, jvar := 0 } := by decide +kernel
 
+/-! ### packing is a bijection -/
+
+/-- conversely every identifier in `[0, 50⁵)` unpacks to legal designators and packs back to itself: packing is a
+bijection between the legal designators and that range -/
+theorem encode_decode (p : Int) (h0 : 0 ≤ p) (h1 : p < 312500000) :
+    (decode p).valid = true ∧ encode (decode p) = p := by
+  have t : ∀ x : Int, 0 ≤ x → x.tdiv 50 = x / 50 := fun x hx => Int.tdiv_eq_ediv_of_nonneg hx
+  have e0 : p.tdiv 50 = p / 50 := t p h0
+  have e1 : (p / 50).tdiv 50 = p / 50 / 50 := t _ (by omega)
+  have e2 : (p / 50 / 50).tdiv 50 = p / 50 / 50 / 50 := t _ (by omega)
+  have e3 : (p / 50 / 50 / 50).tdiv 50 = p / 50 / 50 / 50 / 50 := t _ (by omega)
+  have e4 : (p / 50 / 50 / 50 / 50).tdiv 50 = p / 50 / 50 / 50 / 50 / 50 := t _ (by omega)
+  constructor
+  · rw [Pid.valid_iff]
+    simp only [decode, CONG]
+    rw [e0, e1, e2, e3, e4]
+    refine ⟨⟨?_, ?_⟩, ⟨?_, ?_⟩, ⟨?_, ?_⟩, ⟨?_, ?_⟩, ⟨?_, ?_⟩⟩ <;> omega
+  · simp only [decode, encode, CONG]
+    rw [e0, e1, e2, e3, e4]
+    omega
+
 end GstProofs.C17
